@@ -228,7 +228,7 @@ def check(prog, run):
                        "variables or cycles deeper in the spread graph pass validation and crash execution", 2)
     vc = prog.get_class(VISITORS, "VariablesCollector")
     nf = rcs.get("NoFragmentCyclesChecker")
-    fns = [vc.methods["_flatten_fragments"]] + (list(nf.methods["leave_document"].nested.values()) if nf and "leave_document" in nf.methods else [])
+    fns = [vc.methods["_flatten_fragments"]] + (c06.cycle_search_functions(nf) if nf and "leave_document" in nf.methods else [])
     for f in fns:
         r.instance("closure %s" % f.qualname)
     c06.closure_breaks(prog, run, r, fns)
